@@ -66,6 +66,17 @@ func drawC15(rt *rapid.T, tier string) C15Scenario {
 			return C15Op{Kind: "del", K: x.K, V: x.V}
 		case 4:
 			return C15Op{Kind: "batch", Adds: rapid.SliceOfN(kv, 0, 5).Draw(rt, "adds"), Dels: rapid.SliceOfN(kv, 0, 4).Draw(rt, "dels")}
+		case 5:
+			if rapid.IntRange(0, 2).Draw(rt, "clear") == 0 {
+				// a batch that removes every value the key holds at that moment (one caller only: the
+				// deletions are taken from the model when the operation runs; with several callers it is a read)
+				return C15Op{Kind: "clear", K: rapid.IntRange(0, len(c15Keys)-1).Draw(rt, "k")}
+			}
+			if rapid.IntRange(0, 2).Draw(rt, "reopen") == 0 {
+				// close the store and open it again (a clean restart: RocksDB replays its log and flushes
+				// it into table files). Only runs with a private store and one caller do it; elsewhere it is a read.
+				return C15Op{Kind: "reopen", K: rapid.IntRange(0, len(c15Keys)-1).Draw(rt, "k")}
+			}
 		}
 		return C15Op{Kind: "read", K: rapid.IntRange(0, len(c15Keys)-1).Draw(rt, "k")}
 	})
@@ -75,9 +86,33 @@ func drawC15(rt *rapid.T, tier string) C15Scenario {
 	}
 	sc := C15Scenario{
 		Callers:  rapid.SliceOfN(rapid.SliceOfN(op, 1, maxOps), 1, 3).Draw(rt, "callers"),
-		Backup:   rapid.IntRange(0, 7).Draw(rt, "backup") == 0,
+		Backup:   rapid.IntRange(0, 5).Draw(rt, "backup") == 0,
 		Calm:     rapid.IntRange(0, 2).Draw(rt, "calm"),
 		TapeSeed: rapid.Uint64().Draw(rt, "tape_seed"),
+	}
+	if sc.Backup && rapid.Bool().Draw(rt, "restart_history") {
+		// a history of one caller on a private store, mostly about one key, so that the key is written,
+		// flushed by a restart, rewritten, emptied and restarted again within a dozen operations
+		hot := rapid.IntRange(0, len(c15Keys)-1).Draw(rt, "hot_key")
+		ops := sc.Callers[0]
+		for i := range ops {
+			if rapid.IntRange(0, 2).Draw(rt, "hot") != 0 {
+				ops[i].K = hot
+				for j := range ops[i].Adds {
+					ops[i].Adds[j].K = hot
+				}
+				for j := range ops[i].Dels {
+					ops[i].Dels[j].K = hot
+				}
+			}
+			switch rapid.IntRange(0, 7).Draw(rt, "force") {
+			case 0:
+				ops[i] = C15Op{Kind: "reopen", K: hot}
+			case 1:
+				ops[i] = C15Op{Kind: "clear", K: hot}
+			}
+		}
+		sc.Callers = [][]C15Op{ops}
 	}
 	if rapid.IntRange(0, 2).Draw(rt, "faulty") == 0 {
 		sc.FailAt = rapid.SliceOfN(rapid.IntRange(0, 40), 1, 3).Draw(rt, "fail_at")
@@ -96,6 +131,10 @@ func summaryC15(sc C15Scenario) interface{} {
 				s = append(s, fmt.Sprintf("batch(+%d,-%d)", len(o.Adds), len(o.Dels)))
 			case "read":
 				s = append(s, fmt.Sprintf("read(%q)", c15Keys[o.K]))
+			case "reopen":
+				s = append(s, "reopen")
+			case "clear":
+				s = append(s, fmt.Sprintf("batch(-all of %q)", c15Keys[o.K]))
 			default:
 				s = append(s, fmt.Sprintf("%s(%q,%q)", o.Kind, c15Keys[o.K], c15Vals[o.V]))
 			}
@@ -240,10 +279,19 @@ func runC15(t *testing.T, sc C15Scenario, keep bool) *core.Result {
 		}
 		rdb.VerifWrapDBI(store, func(in rdb.DBI) rdb.DBI { base = in; return in })
 	}
-	for _, k := range c15Keys {
-		if err := base.Delete(c15WriteOpts, []byte(k)); err != nil {
-			res.HarnessErr = "reset: " + err.Error()
-			return res
+	if !sc.Backup {
+		// the shared store is emptied through the store's own interface, one value at a time: how the
+		// implementation removes a key (which kind of tombstone) is its own business and must not be
+		// mixed with raw deletes of the harness. A private store starts empty.
+		for _, k := range c15Keys {
+			var vals [][]byte
+			_ = store.ForEach([]byte(k), func(v []byte) error { vals = append(vals, append([]byte(nil), v...)); return nil }, rdb.NewContext())
+			for _, v := range vals {
+				if err := store.Del([]byte(k), v); err != nil {
+					res.HarnessErr = "reset: " + err.Error()
+					return res
+				}
+			}
 		}
 	}
 	opt := sched.Options{Tape: sc.Tape, TapeSeed: sc.TapeSeed, Calm: sc.Calm, KeepSchedule: keep, MaxSteps: 20000, NoAdvanceWhileEnabled: true}
@@ -261,6 +309,7 @@ func runC15(t *testing.T, sc C15Scenario, keep bool) *core.Result {
 		fi.DBI = base
 		rdb.VerifWrapDBI(store, func(rdb.DBI) rdb.DBI { return fi })
 		var hist []porcupine.Operation
+		storeDead := false // the handle was closed and could not be replaced: nothing may touch it any more
 		sequential := len(sc.Callers) == 1
 		model := c15Model{}
 		readKey := func(k string) c15Out {
@@ -318,6 +367,17 @@ func runC15(t *testing.T, sc C15Scenario, keep bool) *core.Result {
 					injectedFor[name] = false
 					inv := s.Seq()
 					var out c15Out
+					if op.Kind == "clear" {
+						if sequential {
+							op = C15Op{Kind: "batch"}
+							for _, v := range model[c15Keys[ops[oi].K]] {
+								op.Dels = append(op.Dels, C15KV{K: ops[oi].K, V: indexOf(c15Vals, v)})
+							}
+							res.Probe("batch_emptied_a_key")
+						} else {
+							op.Kind = "read"
+						}
+					}
 					switch op.Kind {
 					case "add":
 						out.err = store.Add([]byte(c15Keys[op.K]), []byte(c15Vals[op.V])) != nil
@@ -337,6 +397,26 @@ func runC15(t *testing.T, sc C15Scenario, keep bool) *core.Result {
 						}
 						out.err = store.ExecuteBatch(b) != nil
 					case "read":
+						out = readKey(c15Keys[op.K])
+					case "reopen":
+						if sc.Backup && sequential {
+							fi.Suspend = true
+							if cerr := store.Close(); cerr != nil {
+								res.Add("store-wrong", "store-wrong|close-failed", "closing the store (before opening it again) failed: "+cerr.Error())
+								storeDead = true
+								return
+							}
+							ns, oerr := rdb.NewRDB(dbdir)
+							if oerr != nil {
+								res.HarnessErr = "reopen: " + oerr.Error()
+								return
+							}
+							store = ns
+							rdb.VerifWrapDBI(store, func(in rdb.DBI) rdb.DBI { base = in; fi.DBI = in; return fi })
+							fi.Suspend = false
+							res.Probe("store_reopened")
+						}
+						op.Kind = "read" // for the model a restart is a read: it must change nothing
 						out = readKey(c15Keys[op.K])
 					}
 					out.injected = injectedFor[name]
@@ -365,6 +445,9 @@ func runC15(t *testing.T, sc C15Scenario, keep bool) *core.Result {
 		for _, p := range s.Panics() {
 			res.Add("panic", "panic", p)
 		}
+		if storeDead {
+			return
+		}
 		// final reads belong to the history
 		fi.FailAt = map[int]bool{}
 		final = c15Model{}
@@ -386,7 +469,8 @@ func runC15(t *testing.T, sc C15Scenario, keep bool) *core.Result {
 		rdb.VerifWrapDBI(store, func(rdb.DBI) rdb.DBI { return base })
 		if sc.Backup {
 			if cerr := store.Close(); cerr != nil {
-				res.HarnessErr = "close: " + cerr.Error()
+				// a private store that was only ever used through Add / Del / ExecuteBatch / reads
+				res.Add("store-wrong", "store-wrong|close-failed", "closing the store failed: "+cerr.Error())
 			}
 		}
 		if res.Switches > 0 {
